@@ -26,7 +26,8 @@ RULE = ("Episodes = small net + 1-4 ConstControls over seeded element.variable p
         "(natural divergence and callback-fail) with continue_on_divergence, optionally a second run on the same "
         "net. Every recorded value is compared with a fresh power flow of a replica at that step. Non-trivial = at "
         "least one step of one logged variable was compared; distinct = distinct (controlled element.variable set, "
-        "logged table.variable set, recycle mode chosen, batch-read on/off, dump pattern, failure pattern).")
+        "logged table.variable set, recycle mode chosen, batch-read on/off, dump pattern, failure pattern)."
+        ' Controller targets cover storage/gen scaling, trafo3w taps, transformer and line parameters, in_service profiles and shunts; dcline templates; element tables reindexed (non-contiguous, rotated, reversed rows); log requests in user order, as scalar / array / Index, default eval names, removed and re-requested, for element types without elements; power flow options (trafo_loading, pi model, q limits, ...); time steps as list / array / None; second runs re-using the OutputWriter; controllers out of service.')
 COMPONENTS = {"real": ["run_timeseries, run_control, OutputWriter incl. batch reading, ConstControl, DFData, recycled "
                        "power flow"], "stub": ["SimData data source", "SimClock (perf_counter of the OutputWriter)",
                                                "recording/failing run wrapper", "TimeseriesModel replica"]}
